@@ -278,7 +278,7 @@ func runC03(p *engine.Prog, r *engine.Report) {
 					continue
 				}
 				for k, opnd := range []ssa.Value{bo.X, bo.Y} {
-					if !strings.HasPrefix(ufi.T(opnd).S, "len(call ") {
+					if !strings.HasPrefix(ufi.T(opnd).S, "len(call ") && !isCountPhi(opnd) {
 						continue
 					}
 					found = true
@@ -512,4 +512,47 @@ func atLeastOne(fi *engine.FuncInfo, v ssa.Value, seen map[ssa.Value]bool) bool 
 		return t.IsConst() && t.K >= 1
 	}
 	return false
+}
+
+// isCountPhi: v counts things in a loop: a phi whose value is, through further phis, either the constant 0 or one of
+// the family plus one (n := 0; for ... { if ... { n++ } }).
+func isCountPhi(v ssa.Value) bool {
+	root, ok := v.(*ssa.Phi)
+	if !ok {
+		return false
+	}
+	fam := map[ssa.Value]bool{}
+	okAll, zero, inc := true, false, false
+	var walk func(x ssa.Value)
+	walk = func(x ssa.Value) {
+		if fam[x] {
+			return
+		}
+		switch y := x.(type) {
+		case *ssa.Phi:
+			fam[y] = true
+			for _, e := range y.Edges {
+				walk(e)
+			}
+		case *ssa.Const:
+			if y.Value != nil && y.Value.ExactString() == "0" {
+				zero = true
+			} else {
+				okAll = false
+			}
+		case *ssa.BinOp:
+			c, isC := y.Y.(*ssa.Const)
+			if y.Op != token.ADD || !isC || c.Value == nil || c.Value.ExactString() != "1" {
+				okAll = false
+				return
+			}
+			fam[y] = true
+			inc = true
+			walk(y.X)
+		default:
+			okAll = false
+		}
+	}
+	walk(root)
+	return okAll && zero && inc
 }
